@@ -566,6 +566,14 @@ fn session_strategy() -> impl Strategy<Value = Session> {
         prop::collection::vec((0..ra.len(), 0..ca.len()), 0..8),
         any::<bool>(),
         prop::option::weighted(0.3, (prop::collection::vec(any::<u8>(), 0..300), 0u8..4).prop_map(|(mut p, big)| {
+            if big == 1 {
+                // one text line, then a long run without any line break (a line-buffered writer takes
+                // the line and may leave the rest to the caller)
+                let mut q = b"a line of text\n".to_vec();
+                q.extend(std::iter::repeat(b'y').take(1500 + 10 * p.len()));
+                q.extend_from_slice(&p);
+                p = q;
+            }
             if big == 0 {
                 // more than the 8 KiB copy buffer
                 let base = p.clone();
@@ -708,7 +716,7 @@ pub fn run(args: &Args) -> ! {
             mode: Mode::Resolver,
             syms: vec![Sym { kind: Kind::Echo, flag: Flag::None }, Sym { kind: Kind::EchoVariant, flag: Flag::None }],
             pipelined,
-            upgrade: Some(b"client payload after the greeting\n\0tail".to_vec()),
+            upgrade: Some([&b"client payload after the greeting\n\0tail"[..], &vec![b'z'; 2500][..]].concat()),
             payload_pipelined: false,
             close_early: false,
             spaced: false,
